@@ -346,7 +346,7 @@ def make_cases(ctx, cs, lap):
     W = min(16, vlib.JOBS)
     # (MC) design model against the abstract relation, exhaustive in the bound
     r = vlib.tlc_mc(ctx, 'DataUriGen', 'DataUriGen_quick.cfg' if quick else 'DataUriGen_thorough.cfg',
-                    workers=W, heap='6g', timeout=3000)
+                    workers=W, heap='3g', timeout=3000)
     ctx.coverage['design_states_datauri'] = r['distinct']
     lap('DataUriGen design MC done (%d states)' % r['distinct'])
     # (GEN) the same generator without the minifier dimension: its states are the inputs
@@ -360,7 +360,7 @@ def make_cases(ctx, cs, lap):
     ctx.coverage['uris_enumerated'] = len(states)
     mdump = ctx.path('gen', 'mediatype')
     r = vlib.tlc_mc(ctx, 'MediatypeGen', 'MediatypeGen_quick.cfg' if quick else 'MediatypeGen_thorough.cfg',
-                    workers=W, heap='6g', dump=mdump, timeout=3000)
+                    workers=W, heap='3g', dump=mdump, timeout=3000)
     mstrings = parse_s_dump(mdump + '.dump')
     os.remove(mdump + '.dump')
     if len(mstrings) != r['distinct']:
@@ -376,7 +376,7 @@ def make_cases(ctx, cs, lap):
     # header syntax space: token sequences between "data:" and the comma (DataUriHdrGen: D => A, then the real code)
     hdump = ctx.path('gen', 'hdr')
     r = vlib.tlc_mc(ctx, 'DataUriHdrGen', 'DataUriHdrGen_quick.cfg' if quick else 'DataUriHdrGen_thorough.cfg',
-                    workers=W, heap='6g', dump=hdump, timeout=3000)
+                    workers=W, heap='3g', dump=hdump, timeout=3000)
     txt = open(hdump + '.dump').read()
     os.remove(hdump + '.dump')
     hs = re.findall(r'^/\\ hdr = (<<[^>]*>>)', txt, re.M)
